@@ -32,6 +32,8 @@ const BASES: &[(&str, &str)] = &[
     ("trail", "trailing-slash"),
     ("ha#sh", "hash"),
     ("qu?ery", "question"),
+    ("dotted", "dot-segment"),
+    ("updir", "dotdot-segment"),
 ];
 
 impl Check for C14 {
@@ -90,10 +92,15 @@ impl Check for C14 {
         }
         std::fs::write(base.join("linker.md"), &linker).unwrap();
         let n_notes = files.len() + 1;
-        let base_arg = if bclass == "trailing-slash" {
-            format!("{}/", base.to_string_lossy())
-        } else {
-            base.to_string_lossy().to_string()
+        let base_arg = match bclass {
+            "trailing-slash" => format!("{}/", base.to_string_lossy()),
+            // the library path as a configuration gives it: with "." and ".." segments
+            "dot-segment" => format!("{}/./{}", root.to_string_lossy(), bname),
+            "dotdot-segment" => {
+                let _ = std::fs::create_dir_all(root.join("zz"));
+                format!("{}/zz/../{}", root.to_string_lossy(), bname)
+            }
+            _ => base.to_string_lossy().to_string(),
         };
         lsp::reset_log();
         mon::drain_thread_panics();
